@@ -653,6 +653,7 @@ def r5(ctx):
     lc = prog.func(f"{LOCAL}._local_copy")
     ctx.require(any(q in PY_COPIES for c in lc.calls() for q in prog.resolve_call(lc, c)), "C22.R5: _local_copy no longer uses a shutil copy primitive")
     flags = {id(m): (any(w in m.source for w in ("shutil", "copytree", "aiotarstream")), _TAR_WORD.search(m.source) is not None) for m in _r5_scope(prog)}
+    srcs: dict = {}
     for f in prog.all_funcs():
         has_py, has_tar = flags.get(id(f.module), (False, False))
         if not (has_py or has_tar):
@@ -688,6 +689,9 @@ def r5(ctx):
                                    "archived as links and re-created on the remote location, where they dangle")
             if not has_tar:
                 continue
+            seg = srcs.setdefault(id(f.module), f.module.source.splitlines())[f.node.lineno - 1 : getattr(f.node, "end_lineno", None)]
+            if not any(_TAR_WORD.search(ln) for ln in seg):
+                continue
             for e in f.body_nodes():
                 if not isinstance(e, (ast.List, ast.Tuple, ast.JoinedStr)):
                     continue
@@ -708,8 +712,9 @@ def r5(ctx):
     ctx.require(n_tar >= 2, f"C22.R5: only {n_tar} tar create commands found (copy_remote_to_remote, BaseConnector.copy_remote_to_local expected)")
     ctx.require(n_open >= 1, f"C22.R5: no aiotarstream.open(mode='w') found (copy_local_to_remote expected)")
     # `cp -r` keeps links (GNU / busybox: -R implies -P) -- today's copy_same_connector: observation only
+    cp_word = re.compile(r"""['"](?:/[\w/]*/)?cp['"]""")
     for m in _r5_scope(prog):
-        if "cp" not in m.source:
+        if cp_word.search(m.source) is None:
             continue
         for node in ast.walk(m.tree):
             if isinstance(node, ast.List) and node.elts and isinstance(node.elts[0], ast.Constant) and isinstance(node.elts[0].value, str) and node.elts[0].value.rsplit("/", 1)[-1] == "cp":
@@ -717,8 +722,7 @@ def r5(ctx):
                 rec = any((not o.startswith("--") and ("r" in o or "R" in o or "a" in o)) or o in ("--recursive", "--archive") for o in opts)
                 der = any((not o.startswith("--") and "L" in o) or o == "--dereference" for o in opts)
                 if rec and not der:
-                    f = prog.enclosing_func(node)
-                    ctx.observe(f"C22.R5 {f.name if f else m.name}: `{unparse(node)}` copies recursively without `-L`: symbolic links (also a source path that is itself a link) are "
+                    ctx.observe(f"C22.R5 {m.relpath}:{node.lineno}: `{unparse(node)}` copies recursively without `-L`: symbolic links (also a source path that is itself a link) are "
                                 "re-created, not materialised, by a writable same-location copy (not armed: present on the pinned tree; reported)")
 
 
